@@ -14,10 +14,11 @@ MKO = 'gym_gridverse.representations.observation_representations:make_observatio
 
 ASPACE = ('new', 'gym_gridverse.spaces:ActionSpace', [('list', 'Action', 8)])
 INNER = ('object', {'action_space': ASPACE, 'state_space': 'Token', 'observation_space': 'Token'})
-OUTER = ('raw', OEM + 'OuterEnv', {'inner_env': INNER, 'state_representation': ('opt', ('object', {'space': 'Token'})),
-                                   'observation_representation': ('opt', ('object', {'space': 'Token'}))})
-GYM = ('raw', GM + 'GymEnvironment', {'outer_env': OUTER, 'state_space': 'Token', 'observation_space': 'Token',
-                                      'action_space': 'Token'})
+# the objects are built by the real constructors (fields added to the classes later get their constructor
+# values); a representation only needs a `.space`, the empty dictionary of per-key spaces
+REPSP = ('object', {'space': ('dict', {})})
+OUTER = ('new', OEM + 'OuterEnv', [INNER], {'state_representation': ('opt', REPSP), 'observation_representation': ('opt', REPSP)})
+GYM = ('new', GM + 'GymEnvironment', [OUTER])
 
 
 @contract(target=GM + 'GymEnvironment.step', args={'self': GYM, 'action': 'int'},
@@ -94,7 +95,7 @@ def outer_space_to_gym(space):
 GSTEP = GM + 'GymEnvironment.step'
 GRESET = GM + 'GymEnvironment.reset'
 GSTATE = GM + 'GymEnvironment.state'
-WRAP = ('raw', GM + 'GymStateWrapper', {'env': GYM, 'observation_space': 'Token'})
+WRAP = ('new', GM + 'GymStateWrapper', [GYM])
 
 
 @contract(target=GM + 'GymStateWrapper.step', args={'self': WRAP, 'action': 'int'},
@@ -114,3 +115,42 @@ def wrapper_reset(self):
     ensures('total', lambda: returned())
     ensures('resets-then-returns-the-state', lambda: ghost_calls(GRESET) == 1 and ghost_calls(GSTATE) == 1
             and ghost_seq(GRESET, 0) < ghost_seq(GSTATE, 0) and result() is ghost_result(GSTATE, 0))
+
+
+# ------------------------------------------------------------------------- short histories
+# (see contracts/envs.py: a read before an operation must not change what is read after it)
+def last_call(f):
+    return ghost_calls(f) - 1
+
+
+@lemma(args={'outer_env': OUTER, 'action': 'int'},
+       stubs={TOGYM: 'Token', OSTEP: ('tuple', ['float', 'bool']), ORESET: None, OOBS: 'Token', OSTATE: 'Token'}, props=['C20'])
+def gym_reads_follow_reset_and_step(outer_env, action):
+    from gym_gridverse.gym import GymEnvironment, GymStateWrapper
+    if 0 <= action and action < 8:
+        g = GymEnvironment(outer_env)
+        w = GymStateWrapper(g)
+        o0 = g.reset()
+        g.state                      # earlier reads (may fill memos)
+        g.observation
+        o1 = g.reset()
+        check('reset-returns-an-observation-read-after-it', lambda: ghost_calls(ORESET) == 2
+              and o1 is ghost_result(OOBS, last_call(OOBS)) and ghost_seq(ORESET, 1) < ghost_seq(OOBS, last_call(OOBS)))
+        s1 = g.state
+        check('state-is-read-after-the-reset', lambda: s1 is ghost_result(OSTATE, last_call(OSTATE))
+              and ghost_seq(ORESET, 1) < ghost_seq(OSTATE, last_call(OSTATE)))
+        g.observation
+        r = g.step(action)
+        check('step-returns-an-observation-read-after-it', lambda: ghost_calls(OSTEP) == 1
+              and r[0] is ghost_result(OOBS, last_call(OOBS)) and ghost_seq(OSTEP, 0) < ghost_seq(OOBS, last_call(OOBS)))
+        s2 = g.state
+        check('state-is-read-after-the-step', lambda: s2 is ghost_result(OSTATE, last_call(OSTATE))
+              and ghost_seq(OSTEP, 0) < ghost_seq(OSTATE, last_call(OSTATE)))
+        s3 = w.reset()
+        check('wrapper-reset-returns-the-state-read-after-it', lambda: ghost_calls(ORESET) == 3
+              and s3 is ghost_result(OSTATE, last_call(OSTATE)) and ghost_seq(ORESET, 2) < ghost_seq(OSTATE, last_call(OSTATE)))
+        t = w.step(action)
+        check('wrapper-step-returns-the-state-read-after-it', lambda: ghost_calls(OSTEP) == 2
+              and t[0] is ghost_result(OSTATE, last_call(OSTATE)) and ghost_seq(OSTEP, 1) < ghost_seq(OSTATE, last_call(OSTATE))
+              and t[3]['observation'] is ghost_result(OOBS, last_call(OOBS))
+              and ghost_seq(OSTEP, 1) < ghost_seq(OOBS, last_call(OOBS)))
